@@ -697,17 +697,24 @@ def run_check(pid, tier, seed, replay, log, t0):
                            {'what': 'theorems that no longer check', 'theorems': ob['failed'], 'coq_errors': st['coq_errors'], 'notes': st['notes']}, False))
     # ---- the same theorems over the definitions translated from the Go source on this run (second tie)
     src_tie, scale = None, 1
-    if os.path.exists(os.path.join(COQ, 'Properties', pid + 'src.v')):
-        ob2 = obligations(pid, log, 'src')
-        src_tie = {'file': ob2['file'], 'theorems': ob2['theorems'], 'assumptions': ob2['assumptions'],
-                   'discharged': ob2['discharged'], 'failed': ob2['failed'], 'translation': st.get('source_translation')}
-        if ob2['failed']:
+    import glob
+    srcfiles = sorted(os.path.basename(f)[len(pid):-2] for f in glob.glob(os.path.join(COQ, 'Properties', pid + 'src*.v')))
+    if srcfiles:
+        src_tie = {'files': [], 'theorems': [], 'assumptions': {}, 'discharged': 0, 'failed': [], 'translation': st.get('source_translation')}
+        for suf in srcfiles:
+            ob2 = obligations(pid, log, suf)
+            src_tie['files'].append(ob2['file'])
+            src_tie['theorems'] += ob2['theorems']
+            src_tie['assumptions'].update(ob2['assumptions'])
+            src_tie['discharged'] += ob2['discharged']
+            src_tie['failed'] += ob2['failed']
+        if src_tie['failed']:
             # a rewrite of the code can put a function outside the translated fragment or outside what the
             # equivalence proofs expect; the property is then decided by the hand-written model alone, and the
             # search for a disagreeing input is widened
             scale = 8
             src_tie['status'] = 'broken: decided by the hand-written model and a correspondence run of %d times the usual size' % scale
-            st['notes'].append('theorems over the translated source no longer check (%s): %s' % (ob2['file'], ', '.join(ob2['failed'])))
+            st['notes'].append('theorems over the translated source no longer check (%s): %s' % (', '.join(src_tie['files']), ', '.join(src_tie['failed'])))
         else:
             src_tie['status'] = 'ok'
     if not st['translator_ok']:
